@@ -27,7 +27,7 @@ ASSUMPTIONS = [
     "only pins fingerprints)",
 ]
 NONTRIVIAL = ["cell"]
-DEADLINE = {"quick": 70, "thorough": 900}
+DEADLINE = {"quick": 120, "thorough": 900}
 
 OTHER = {"rsa": ("server", "rsa_nonca"), "rsapss": ("server", "rsa"),
          "ecdsa256": ("server", "ecdsa_nonca"), "ecdsa384": ("server",
